@@ -23,7 +23,7 @@ SHRINK = 'greedy'
 SHRINK_RUNS = 40
 TIME_BUDGET = {'quick': 170, 'thorough': 1700}
 REQUIRED = {'quick': {'tuple_defaults': 60, 'mutation_visible': 60, 'falsy_result': 60, 'extra_longer_than_defaults': 40, 'interleaved': 200, 'wait_then_drain': 100,
-                      'enqueue_after_close': 40, 'call': 40, 'nested_mutable_default': 100, 'gated_schedule': 10, 'gated_init_schedule': 10},
+                      'enqueue_after_close': 40, 'call': 40, 'nested_mutable_default': 100, 'gated_schedule': 10, 'gated_init_schedule': 10, 'enqueue_after_own_death': 40},
             'thorough': {'tuple_defaults': 600, 'mutation_visible': 600, 'falsy_result': 400, 'interleaved': 1000}}
 
 _scalar = st.one_of(st.integers(0, 9), st.sampled_from(['s', None, 0.5]))
@@ -46,7 +46,7 @@ def strategy(tier):
     nxt = st.tuples(st.just('next'))
     live = st.one_of(enq, enq_s, enq_s, nxt, nxt, st.tuples(st.just('call'), _arg))
     end = st.one_of(st.tuples(st.just('close')), st.tuples(st.just('wait')), st.tuples(st.just('wait')), st.tuples(st.just('enqueue_after_close')),
-                    st.tuples(st.just('read_past_end')), nxt, enq_s)
+                    st.tuples(st.just('read_past_end')), nxt, enq_s, st.tuples(st.just('die_then_enqueue')))
     ops = st.builds(lambda a, b: [list(x) for x in a] + [list(x) for x in b], st.lists(live, min_size=1, max_size=14), st.lists(end, max_size=5))
     return st.fixed_dictionaries({
         'kind': st.sampled_from(IC.PERSISTENT),
@@ -414,6 +414,47 @@ def run_case(case, ctx):
                     pass
                 except BaseException as e:
                     out.viol('enqueue_after_close_wrong_exception:' + type(e).__name__, site, repr(e)[:200])
+            elif what == 'die_then_enqueue':
+                # the worker dies on its own (the target raises for this input); its end is observed through the OS / the thread object only -
+                # no call on the worker refreshes its bookkeeping - and then one more enqueue is tried
+                if closed or case['target'] != 'echo':
+                    continue
+                try:
+                    bounded(w.enqueue, 10, 'POISON')
+                except BaseException as e:
+                    out.viol('enqueue_raised:' + type(e).__name__, site, f'enqueue on an open live worker: {e!r}'[:300])
+                    break
+                from core import pid_alive
+                t_end = time.monotonic() + 15
+                th = getattr(w, '_child', None)
+                while time.monotonic() < t_end:
+                    if kind.endswith('thread'):
+                        gone = th is not None and not th.is_alive()
+                    elif kind.endswith('process'):
+                        gone = not pid_alive(w.pid)
+                    else:
+                        gone = not pid_alive(w.pid) and th is not None and not th.is_alive()
+                    if gone:
+                        break
+                    time.sleep(0.005)
+                else:
+                    out.excluded = 'worker did not die after the poison input'
+                    return out
+                time.sleep(0.02)
+                out.label('enqueue_after_own_death')
+                out.nontrivial = True
+                try:
+                    bounded(w.enqueue, 10, 1)
+                    out.viol('enqueue_after_death_accepted', site, 'the worker died on its own (target raised); the next enqueue did not raise WorkerClosedError')
+                except WorkerClosedError:
+                    pass
+                except Blocked:
+                    out.viol('enqueue_after_death_blocked', site, '')
+                except BaseException as e:
+                    out.viol('enqueue_after_death_wrong_exception:' + type(e).__name__, site, repr(e)[:200])
+                steps.append('die_then_enqueue')
+                out.obs = {'steps': steps, 'accepted': accepted, 'delivered': delivered}
+                return out
             elif what == 'read_past_end':
                 if not waited:
                     continue
